@@ -10,6 +10,7 @@ EXTENDS Ndp6Hunt, Json
 
 CONSTANTS T1, T2, T3, L1, L2, G1, V41, R1, R2, RM1, RM2,      \* members of the universes by name
           CaptureMACs,                                        \* MACs the application may flag with Session.Capture / Release
+          ExtraLLAs,                                          \* further link-local targets (zoned, non-zero bits after the /10 prefix) tried in the walks
           OtherV6,                                            \* IPv6 addresses that are neither link-local unicast nor G1 (subset of GUAs)
           MaxLoops, MaxDepth, Bounded, ExportEvery
 VARIABLES bad, depth, hist
@@ -17,7 +18,9 @@ mcvars == <<hunt, loops, routers, raCount, closed, panicked, captured, out, ev, 
 
 \* t1 has two link-local addresses, t2 is address-less, t3 is known by a global and an IPv4 address
 StartChoices == {<<T1, L1>>, <<T1, L2>>, <<T2, NoIP>>, <<T3, G1>>, <<T3, V41>>, <<T3, L2>>} \cup {<<T3, x>> : x \in OtherV6}
+                \cup {<<T1, x>> : x \in ExtraLLAs} \cup {<<T3, x>> : x \in ExtraLLAs}
 StopChoices  == {<<T1, L1>>, <<T1, G1>>, <<T1, NoIP>>, <<T2, NoIP>>, <<T2, V41>>, <<T3, L2>>} \cup {<<T3, x>> : x \in OtherV6}
+                \cup {<<T1, x>> : x \in ExtraLLAs} \cup {<<T3, x>> : x \in ExtraLLAs}
 RAChoices    == {<<R1, RM1, "ok">>, <<R2, RM2, "ok">>, <<R1, RM1, "badopts">>, <<R2, RM2, "nohost">>}
 OtherKinds   == {"ns-lla", "ns-gua", "na", "rs", "echo"}
 
